@@ -112,20 +112,12 @@ Theorem C08_outcome : forall (hash : N -> N -> N) (zero : N) (leaf_hash : msg ->
 Proof. exact select_report_spec. Qed.
 Print Assumptions C08_outcome.
 
-(* Full-strength nonce clause (false of the code, F14):
+(* Full-strength nonce clause:
      forall ... , add ... = Ok (st', cd') -> nonce_run_reports nonces [] (build st') <> None.
-   Refuted twice: (a) a too-costly message advances the expected nonce and its successor is included;
-   (b) the size fallback drops a message after the nonce chain was fixed and keeps its successor. *)
+   Still false of the code (F14, fallback half): the size fallback drops a message after the nonce chain was
+   fixed and keeps its successor.  (The repo's own Test_Builder_Build/skip_over_one_large_messages asserts exactly
+   this behaviour, which is why this half is recorded and not repaired.) *)
 Theorem C08_nonce_order_refuted :
-  exists hash zero leaf enc tg nonces max_size max_gas cd st' cd' r,
-    add hash zero leaf enc tg nonces max_size max_gas b_init cd = Ok (st', cd') /\
-    build st' = [r] /\ map m_nonce (r_msgs r) = [1; 3]%N /\
-    nlookup (c_src cd) 77 nonces = Some 0%N /\
-    nonce_run_reports nonces [] (build st') = None.
-Proof. exact nonce_order_refuted_costly. Qed.
-Print Assumptions C08_nonce_order_refuted.
-
-Theorem C08_nonce_order_refuted_fallback :
   exists hash zero leaf enc tg nonces max_size max_gas cd st' cd' r,
     c_costly cd = [] /\
     add hash zero leaf enc tg nonces max_size max_gas b_init cd = Ok (st', cd') /\
@@ -133,17 +125,29 @@ Theorem C08_nonce_order_refuted_fallback :
     nlookup (c_src cd) 77 nonces = Some 0%N /\
     nonce_run_reports nonces [] (build st') = None.
 Proof. exact nonce_order_refuted_fallback. Qed.
-Print Assumptions C08_nonce_order_refuted_fallback.
+Print Assumptions C08_nonce_order_refuted.
 
-(* Outside the recorded class (no message advances its sender's expected nonce without being placed in the report):
-   for every (chain, sender) the sequenced messages a chain report holds carry the expectation in force — initially
-   on-chain nonce + 1 — and its successors, in order, and the expectation afterwards is the next one; senders
-   without an on-chain nonce get no sequenced message. *)
+(* Before repair F14a (too-costly test after the nonce check, model functions *_unfixed) the clause failed in a second
+   way: a too-costly message advanced the expected nonce and its successor was reported. *)
+Theorem C08_nonce_order_costly_unfixed_refuted :
+  exists hash zero leaf enc tg nonces max_size max_gas cd st' cd' r,
+    add_unfixed hash zero leaf enc tg nonces max_size max_gas b_init cd = Ok (st', cd') /\
+    build st' = [r] /\ map m_nonce (r_msgs r) = [1; 3]%N /\
+    nlookup (c_src cd) 77 nonces = Some 0%N /\
+    nonce_run_reports nonces [] (build st') = None.
+Proof. exact nonce_order_costly_unfixed_refuted. Qed.
+Print Assumptions C08_nonce_order_costly_unfixed_refuted.
+
+(* Outside the recorded class (the size / gas fallback drops no ready sequenced message; in particular whenever the
+   all-ready report fits): for every (chain, sender) the sequenced messages a chain report holds carry the expectation
+   in force — initially on-chain nonce + 1 — and its successors, in order, and the expectation afterwards is the next
+   one; senders without an on-chain nonce get no sequenced message.  Costly, executed and not-ready messages no
+   longer matter: they do not advance the expectation (repair F14a). *)
 Theorem C08_nonce_order_except_known : forall (hash : N -> N -> N) (zero : N) (leaf_hash : msg -> option N)
     (enc_size : creport -> option N) (tree_gas : N -> N) (nonces : nmap) (max_size max_gas : N)
     (st : bstate) (cd : cdata) (st' : bstate) (cd' : cdata) (c s : N) (rmsgs : list msg),
   add hash zero leaf_hash enc_size tree_gas nonces max_size max_gas st cd = Ok (st', cd') ->
-  nonce_leak hash zero leaf_hash enc_size tree_gas nonces max_size max_gas st cd = false ->
+  fallback_drop hash zero leaf_hash enc_size tree_gas nonces max_size max_gas st cd = false ->
   (forall new : list creport, b_reports st' = b_reports st ++ new -> rmsgs = concat (map r_msgs new)) ->
   let mine := filter (key c s cd) rmsgs in
   match eff nonces c s (b_exp st) with
